@@ -29,6 +29,17 @@ def expected (me : Bytes) : List Ev → Bytes × Bool
       else expected me evs
     else expected me evs
 
+/-- The same on the level of the frames that travel on the connection (16-byte ids): what a reader
+with frame id `id` must deliver from the frame sequence `fs`. -/
+def deliver (id : Bytes) : List Frame → Bytes × Bool
+  | [] => ([], false)
+  | f :: fs =>
+    if f.id == id then
+      if f.ty == crossnode.FrameTypeData then (f.data ++ (deliver id fs).1, (deliver id fs).2)
+      else if isTerminator f.ty then ([], true)
+      else deliver id fs
+    else deliver id fs
+
 /-- What every `Write` call must answer: everything accepted while open, refused after close. -/
 def expectedWrites : Bool → List Ev → List WRes
   | _, [] => []
